@@ -260,7 +260,7 @@ def cases(tier, seed):
     n = 0
     # corpus (valid and invalid samples), also as CRLF and with a multi-byte comment in front
     for j, (p, t) in enumerate(corpus):
-        if quick and j % 3:
+        if quick and j % 3 and not p.startswith("docs/"):
             continue
         yield {"kind": "corpus", "files": [(p, t)], "want_sample": j == 0}
         yield {"kind": "corpus_crlf", "files": [(p, t.replace("\r\n", "\n").replace("\n", "\r\n"))]}
@@ -315,6 +315,10 @@ def cases(tier, seed):
         yield {"kind": "many_imports", "files": [("main.pn", main)] + order}
     for i in range(100 if quick else 5000):
         yield {"kind": "soup", "files": [("soup.pn", gen_mutate.token_soup(rng, rng.choice([4, 10, 30])))]}
+    # faults at the very end of a file without final newline (nothing may be located past the last character)
+    for tail in ('"abc\\', "'\\", '"abc', "'a", '"a\\x4', '"\\u{41', "12q", "@", '"é\\', "cast", "x =", "x = 1 +", "|:", "&"):
+        for lead in ("fn main()\n{\n\tvar x = ", "fn main()\r\n{\r\n\tvar x = ", "// é€\nfn main()\n{\n\tx = "):
+            yield {"kind": "end_of_file", "files": [("eof.pn", lead + tail)]}
     # diagnostics whose subject spans several lines (adjacent string literals, array / structure literals, calls, bracketed
     # operations): the reported line must be the line the span starts on
     subjects = {
